@@ -32,6 +32,25 @@ if req['mode'] == 'classify':
                 row[how] = ['ok', type(mo).__name__, bool(mo.completed), str(mo)]
             except Exception as e:
                 row[how] = ['err', type(e).__name__]
+        # the same document stored in other encodings (with the matching XML declaration), as bytes and as a file
+        for enc in ('utf-16', 'iso-8859-1'):
+            try:
+                data = ('<?xml version="1.0" encoding="%s"?>' % enc + text).encode(enc)
+            except UnicodeEncodeError:
+                continue
+            for how in ('bytes', 'file'):
+                try:
+                    if how == 'bytes':
+                        mo = MosFile.from_string(data)
+                    else:
+                        p = os.path.join(tmp, 'e%d.mos.xml' % k)
+                        with open(p, 'wb') as f:
+                            f.write(data)
+                        mo = MosFile.from_file(p)
+                        os.unlink(p)
+                    row[how + ':' + enc] = ['ok', type(mo).__name__, bool(mo.completed), str(mo)]
+                except Exception as e:
+                    row[how + ':' + enc] = ['err', type(e).__name__]
         out.append(row)
     import shutil
     shutil.rmtree(tmp, ignore_errors=True)
